@@ -370,31 +370,36 @@ class exp(object):
 
     @_checkarg_numeric
     def __ne__(self, n):
-        if hash(self) == hash(n):
+        # (two unknown (top) values print the same but are not the same value)
+        if self._is_def and hash(self) == hash(n):
             return bit0
         return oper(OP_NEQ, self, n)
 
     @_checkarg_numeric
     def __lt__(self, n):
-        if hash(self) == hash(n):
+        # (two unknown (top) values print the same but are not the same value)
+        if self._is_def and hash(self) == hash(n):
             return bit0
         return oper(OP_LT, self, n)
 
     @_checkarg_numeric
     def __le__(self, n):
-        if hash(self) == hash(n):
+        # (two unknown (top) values print the same but are not the same value)
+        if self._is_def and hash(self) == hash(n):
             return bit1
         return oper(OP_LE, self, n)
 
     @_checkarg_numeric
     def __ge__(self, n):
-        if hash(self) == hash(n):
+        # (two unknown (top) values print the same but are not the same value)
+        if self._is_def and hash(self) == hash(n):
             return bit1
         return oper(OP_GE, self, n)
 
     @_checkarg_numeric
     def __gt__(self, n):
-        if hash(self) == hash(n):
+        # (two unknown (top) values print the same but are not the same value)
+        if self._is_def and hash(self) == hash(n):
             return bit0
         return oper(OP_GT, self, n)
 
@@ -2264,7 +2269,8 @@ def eqn2_helpers(e, bitslice=False, widening=False):
         return vec([e.op(x, e.r) for x in e.l.l]).simplify(widening=widening)
     if e.r._is_vec:
         return vec([e.op(e.l, x) for x in e.r.l]).simplify(widening=widening)
-    if "%s" % (e.l) == "%s" % (e.r):
+    # (two unknown (top) operands print the same but are not the same value)
+    if e.l._is_def and e.r._is_def and "%s" % (e.l) == "%s" % (e.r):
         if e.op.symbol in (OP_NEQ, OP_LT, OP_GT):
             return bit0
         if e.op.symbol in (OP_EQ, OP_LE, OP_GE):
